@@ -114,9 +114,11 @@ WIdx ==
      IN /\ idx' = Put(idx, Ev.i, ents)
         \* a pack listed unmarked again loses its mark (recovered); a pack newly listed as
         \* marked gets the mark time unless an older mark is known
+        \* (keep-delete runs from the moment prune marks the pack - the clock of the trace when the mark first
+        \* appears - not from whatever time the entry carries; entries written by other commands keep their stored time)
         /\ marks' = [p \in (DOMAIN marks \cup marked) \ unmarked |->
-                        IF p \in DOMAIN marks THEN (IF p \in marked /\ tOf(p) < marks[p] THEN tOf(p) ELSE marks[p])
-                        ELSE tOf(p)]
+                        IF p \in DOMAIN marks THEN marks[p]
+                        ELSE IF Known(Ev.proc) /\ cmds[Ev.proc].cmd = "prune" THEN cmds[Ev.proc].now ELSE tOf(p)]
         /\ viol' = MutViol(Ev.proc, "index")
              \cup {<<"PackIndexAgree", Ev.ents[k].p>> : k \in {j \in DOMAIN Ev.ents : Ev.ents[j].agree = "no"}}
              \cup (IF ~Ev.decoded THEN {<<"IndexUndecodable", Ev.i>>} ELSE {})
